@@ -82,4 +82,14 @@ def streams(ctx):
                               model_ops=lambda ops, impl: ["# " + o for o in ops],
                               judge=lambda ops, impl, mops, model: [], timeout=1200,
                               classify=lambda o, r: "ERR" if r.startswith("ERR") else "ok"))
+    # regimes that only exist at magnitudes the thinned / size-capped source streams above never reach on the instrumented
+    # build: PhiCache with its 16 MiB limit active (x > ~1.2e15, a >= 130), through phi and through the algorithms using it
+    big = ["phi_t 2000000000000000 200 16", "phi_t 2000000000000000 199 16", "phi_t 1300000000000000 131 1",
+           "phi_t 10000000000000000 250 16", "alg meissel 2000000000000000 16", "alg legendre 1300000000000000 16"]
+    env = {"OMP_NUM_THREADS": "16", "ASAN_OPTIONS": "detect_leaks=0:abort_on_error=0:print_legend=0",
+           "UBSAN_OPTIONS": "print_stacktrace=1:halt_on_error=1"}
+    out.append(Stream("san:large-magnitude", big, oracle=True, variant="san", env=env,
+                      model_ops=lambda ops, impl: ["# " + o for o in ops],
+                      judge=lambda ops, impl, mops, model: [], timeout=1800,
+                      classify=lambda o, r: "ERR" if r.startswith("ERR") else "ok"))
     return out
